@@ -337,6 +337,25 @@ def run_case(case):
                         if not np.all(np.abs(np.asarray(ret.value) - old0) <= bound):
                             add("limit_dt_zero", "terms %s, alpha %s: a step with dt=2^-40 differs from the old field by %.3g"
                                 % ("+".join(ts), akind, float(np.max(np.abs(np.asarray(ret.value) - old0)))), terms=list(ts))
+                # dt / alpha given as other numeric types: same step as with the equal float
+                for dtt, att in ((1, 2), (np.int64(2), np.int32(1)), (np.float32(0.25), np.float32(1.5)), (True, 1.0)):
+                    a_t = att if akind == "scalar" else alpha_field
+                    a_f = float(att) if akind == "scalar" else alpha_field
+                    outs = []
+                    for dt_, al_ in ((dtt, a_t), (float(dtt), a_f)):
+                        phi = pf.CellVariable(g.mesh, old0.copy(), make_bc(g, setup))
+                        try:
+                            pf.solvePDE(phi, [pf.transientTerm(phi, dt_, al_)] + Ms + vs)
+                            outs.append(np.asarray(phi.value, dtype=float).copy())
+                        except Exception as e:  # noqa: BLE001
+                            outs.append(e)
+                    res["evals"] += 1
+                    res["nontrivial"] += 1
+                    if isinstance(outs[0], Exception) or isinstance(outs[1], Exception) or \
+                            not np.all(np.abs(outs[0] - outs[1]) <= 64 * EPS * 1e3 * max(1.0, float(np.max(np.abs(outs[1]))))):
+                        add("typed_dt_alpha", "terms %s: transientTerm with dt=%r (%s), alpha %s differs from the same step with float arguments%s"
+                            % ("+".join(ts), dtt, type(dtt).__name__, "%r (%s)" % (att, type(att).__name__) if akind == "scalar" else "field",
+                               ": raises %r" % outs[0] if isinstance(outs[0], Exception) else ""), terms=list(ts))
         res["sample"] = {"grid": gid, "setup": setup, "dts": len(DTS) + 2}
     else:
         rng_rhs = U.generic_array(g.fshape, tag=413, signed=True).ravel()
